@@ -28,6 +28,7 @@ EXPLANATION = (
   ' (STATE-share) no assignment stores a container field of one object (a field the package updates in place) into a field of another object without copying it, so an in-place update of one object never changes another;'
   " (ITEM-source) an object built once per item of an inner loop is filled only with values that derive from that item or do not vary with the loops, never with a value of the enclosing container standing where the item's own belongs;"
   ' (LOOP-break) no loop over the items of a collection is left by a branch that does nothing but `break` on a test about the item (end-of-input sentinels, flags set in the loop body and searches whose variable is read afterwards excepted): an item that is to be skipped does not end the processing of the items after it;'
+  ' (TAINT) as in C07: model text reaches the WebVTT payload through an escaping function that replaces & < > exactly once each, so the cue carries the visible text and nothing else;'
 )
 RULE_TEXT = ("one rule instance per (function, live loop), per (flattener, element kind), per writer for SEQ-end / FIN-default; "
              "distinct = distinct (rule, construct) pairs")
@@ -298,4 +299,6 @@ def run(ctx):
     shape.check_default_end(ctx, ctx.ix.cls(q_))
   common.check_numeric_fields(ctx, common.WRITERS)
   common.check_walkers(ctx, common.ISD_FILTERS + ["ttconv.srt.writer", "ttconv.vtt.writer"])
+  from . import c07 as _c07
+  _c07.check_escaping(ctx)
   common.check_history_independence(ctx, common.WRITERS + common.ISD_FILTERS + ["ttconv.isd"])
